@@ -491,6 +491,13 @@ impl<T> Block for NoCopyFileSink<T>""")]),
          edits=[E("src/mtgraph.rs", "                                f();\n", "                                let _ = f;\n")]),
     dict(name="sw-c16-filesource-eof-to-again", prop="C16", expect="C16.R8:<file_source::FileSource as block::Block>::work:again()==false",
          edits=[E("src/file_source.rs", "                return Ok(BlockRet::EOF);", "                return Ok(BlockRet::Again);")]),
+    dict(name="f21-reverted-tcpsource-eof-on-full-output", prop="C14", expect="C14.R7:<tcp_source::TcpSource as block::Block>::work:EOF#0",
+         edits=[E("src/tcp_source.rs", """        if o.is_empty() {
+            // A read into an empty buffer returns 0, which is not a closed
+            // connection.
+            return Ok(BlockRet::WaitForStream(&self.dst, 1));
+        }
+""", "")]),
     dict(name="sw-c16-tcpsource-closed-again", prop="C16", expect="C16.R8:<tcp_source::TcpSource as block::Block>::work:read()==0",
          edits=[E("src/tcp_source.rs", "            return Ok(BlockRet::EOF);", "            return Ok(BlockRet::Again);")]),
     dict(name="sw-c08-fill-deleted", prop="C08", expect="C08.R4:<file_source::FileSource as block::Block>::work:produce",
@@ -528,6 +535,10 @@ impl<T> Block for NoCopyFileSink<T>""")]),
 ALL_BUILT = ["C03", "C08", "C12", "C13", "C14", "C15", "C19", "C01", "C02", "C04", "C05", "C06", "C07", "C09", "C16", "C17", "C18"]
 
 NEUTRAL = [
+    dict(name="n-hdlc-push-copy-from-validated", props=["C13", "C15", "C08"],
+         edits=[E("src/hdlc_deframer.rs", "                        self.dst.push(data.to_vec(), tags);", """                        let mut out = vec![0u8; data.len()];
+                        out.copy_from_slice(data);
+                        self.dst.push(out, tags);""")]),
     dict(name="n-stp-shrink-after-loop", props=["C08", "C15", "C09"],
          edits=[E("src/stream_to_pdu.rs", """        let n = input.len();
         input.consume(n);""", """        if self.buf.capacity() > 4 * self.max_size.max(1) {
